@@ -300,7 +300,10 @@ fn main() {
                     let rows = if case_no % 2 == 0 { vec![row(&rec.sym, "10"), row(&rec.sym2, "7")] } else { vec![row(&rec.sym2, "7"), row(&rec.sym, "10")] };
                     let tx2 = json!({"BrokerageTransactions": rows}).to_string();
                     let inp2 = format!("awards: {awards}\ntransactions: {tx2}");
-                    let mut push2 = |kind: &str, detail: String| fs2.push(Finding { prop: "C19".into(), kind: kind.into(), case: case_no, detail, input: inp2.clone(), data: json!({"admissible": rec.admissible, "admissible2": rec.admissible2}) });
+                    // (an RSU row priced from another row's look-up is also a row the converter did not keep as it was: C18)
+                    let mut push2 = |kind: &str, detail: String| for pr in ["C19", "C18"] {
+                        fs2.push(Finding { prop: pr.into(), kind: kind.into(), case: case_no, detail: detail.clone(), input: inp2.clone(), data: json!({"admissible": rec.admissible, "admissible2": rec.admissible2}) });
+                    };
                     c.inc("executions");
                     c.inc("two_symbol_lookups");
                     match convert(&tx2, Some(awards.clone())) {
